@@ -437,6 +437,81 @@ func c09Giants(c *fw.Ctx, idx int) {
 	}
 }
 
+// c09EveryLength: the closed-form line and rectangle of c09Giants at every
+// number of vertices idx = 0, 1, 2, ... (strides 2 and 3; as a part of its own, as
+// the middle part of three, and as the only ring of the second polygon of a
+// MultiPolygon): a measure computed in blocks of whatever size has a length at
+// which its seam shows.
+func c09EveryLength(c *fw.Ctx, idx int) {
+	n := idx
+	for _, layout := range []geom.Layout{geom.XY, geom.XYZ} {
+		stride := layout.Stride()
+		flat := make([]float64, n*stride)
+		for i := 0; i < n; i++ {
+			flat[i*stride], flat[i*stride+1] = float64(i), 7
+		}
+		wantLen := float64(n - 1)
+		if n < 2 {
+			wantLen = 0
+		}
+		c.SetInput(map[string]any{"shape": "unit-step line going east", "vertices": n, "layout": layout.String()})
+		var l1, l2, l3 float64
+		if c.Guard("panic", func() {
+			l1 = geom.NewLineStringFlat(layout, flat).Length()
+			l2 = geom.NewMultiLineStringFlat(layout, flat, []int{len(flat)}).Length()
+			// the same line between two short ones
+			pre := make([]float64, 2*stride)
+			pre[stride] = 3 // (0,0)-(3,0)
+			all := append(append(append([]float64{}, pre...), flat...), pre...)
+			l3 = geom.NewMultiLineStringFlat(layout, all, []int{2 * stride, 2*stride + len(flat), 4*stride + len(flat)}).Length()
+		}) {
+			return
+		}
+		c.Eval(3)
+		if l1 != wantLen || l2 != wantLen || l3 != wantLen+6 {
+			c.Fail("length-error", "unit-step line of %d vertices: LineString.Length() = %v, as the only part of a MultiLineString %v, between two lines of length 3 %v; exact %v and %v", n, l1, l2, l3, wantLen, wantLen+6)
+			return
+		}
+		if n < 4 {
+			continue
+		}
+		// rectangle of m = 2k+3 vertices, m the largest such number <= n
+		k := (n - 3) / 2
+		m := 2*k + 3
+		ring := make([]float64, m*stride)
+		put := func(i int, x, y float64) { ring[i*stride], ring[i*stride+1] = x, y }
+		for i := 0; i <= k; i++ {
+			put(i, float64(i), 0)
+			put(k+1+i, float64(k-i), 1)
+		}
+		put(m-1, 0, 0)
+		sq := make([]float64, 5*stride) // unit square far away, area 1, perimeter 4
+		for i, v := range [][2]float64{{-9, -9}, {-8, -9}, {-8, -8}, {-9, -8}, {-9, -9}} {
+			sq[i*stride], sq[i*stride+1] = v[0], v[1]
+		}
+		c.SetInput(map[string]any{"shape": "k x 1 rectangle with a vertex at every unit step", "vertices": m, "k": k, "layout": layout.String()})
+		var a1, a2, a3, p3 float64
+		if c.Guard("panic", func() {
+			a1 = geom.NewLinearRingFlat(layout, ring).Area()
+			a2 = geom.NewPolygonFlat(layout, ring, []int{len(ring)}).Area()
+			all := append(append([]float64{}, sq...), ring...)
+			mp := geom.NewMultiPolygonFlat(layout, all, [][]int{{len(sq)}, {len(all)}})
+			a3, p3 = mp.Area(), mp.Length()
+		}) {
+			return
+		}
+		c.Eval(4)
+		if math.Abs(a1) != float64(k) || math.Abs(a2) != float64(k) || math.Abs(a3) != float64(k+1) || p3 != float64(2*k+2+4) {
+			c.Fail("area-error", "%d x 1 rectangle of %d vertices: LinearRing.Area() = %v, Polygon.Area() = %v (exact %d), MultiPolygon with a unit square before it: Area() = %v (exact %d), Length() = %v (exact %d)", k, m, a1, a2, k, a3, k+1, p3, 2*k+6)
+			return
+		}
+	}
+	c.Count("lengths_measured")
+	if idx%1000 == 0 {
+		c.Distinct(fmt.Sprintf("every-length/%d", idx))
+	}
+}
+
 func cloneGeom(t geom.T) geom.T {
 	switch x := t.(type) {
 	case *geom.Point:
@@ -684,6 +759,7 @@ func init() {
 			{Name: "measures", Quick: 150000, Thorough: 5000000, Run: c09Run},
 			{Name: "huge-parts", Quick: 16, Thorough: 400, Chunk: 1, Run: c09Huge},
 			{Name: "giants", Quick: 32, Thorough: 64, Chunk: 1, Run: c09Giants},
+			{Name: "every-length", Quick: 10001, Thorough: 40001, Chunk: 50, Run: c09EveryLength, Exhaustive: "closed-form line and rectangle at every number of vertices from 0 to the class count"},
 		},
 		Require: []string{"area_compared", "length_compared", "additivity_checked", "multipolygon_with_empty_polygon", "empty_component_before_nonempty", "area_positive_ccw", "area_negative_cw", "area_zero_checked"},
 	})
